@@ -18,6 +18,16 @@
 //!   reactions: A<k> accept returned conn k | E accept error | Sp<k> driver spawned | T<k> graceful_shutdown
 //!   called | D<k> driver finished | H<k> handler invoked | V<c> complete response received | W<c> request
 //!   failed | K<c> client saw the close | N<c> connect refused | Z+ / Z- server future Ok / Err | Q quiescent
+//!   (K and W are for the reader; the Coq side does not use them)
+//!
+//! How it runs: one current-thread tokio runtime per case; the server future is one task, every
+//! driver goes through a logging executor, every client is a task.  "Settle" = yield until the log has
+//! not changed for 30 rounds (real sockets additionally sleep in short rounds so that Nagle / delayed
+//! ACK cannot hold data back; no wall-clock value is ever observed).  Connects are queued synchronously
+//! (the connect future is polled once by hand), so "queued but not yet accepted" is a scripted position.
+//! Rules shared with the model (coq/server/Model.v): connection id = order of the connect events; P/R/T/F
+//! on a client that does not exist / has gone / is closed are no-ops; HTTP/1 clients have one request at
+//! a time; once the serving future of a graceful server has completed no new request is begun.
 use std::collections::HashMap;
 use std::future::Future;
 use std::pin::Pin;
@@ -742,7 +752,7 @@ async fn run_case(line: String) -> String {
         _ => launch!(hyperdriver::server::conn::auto::Builder::default()),
     };
 
-    let mut w = World { log: log.clone(), sockets: match transport { "tcp" => (5, 12), "unix" => (2, 4), _ => (0, 0) }, tls, dial, clients: Vec::new(), gates, stop };
+    let mut w = World { log: log.clone(), sockets: match transport { "tcp" => (10, 12), "unix" => (3, 6), _ => (0, 0) }, tls, dial, clients: Vec::new(), gates, stop };
     for tok in &f[3..] {
         match *tok {
             "G" => {
